@@ -91,36 +91,47 @@ def _mentions(e, name):
 # ---------------------------------------------------------------------- K2
 @rule("K2", "the JSON serializer never overwrites or deletes a keyword value it read from the element")
 def k2(ctx, res):
-    ser = ctx.func("_serialize_element")
+    ser0 = ctx.func("_serialize_element")
+    # the local that holds the outgoing keyword dict: the one bound to the signature comprehension
+    sname = None
+    for st in walk_own(view(ser0, ctx.prog).body):
+        if isinstance(st, (ast.Assign, ast.AnnAssign)) and st.value is not None \
+                and has("inspect.signature(Element.__init__)", st.value):
+            tg = st.targets[0] if isinstance(st, ast.Assign) else st.target
+            if isinstance(tg, ast.Name):
+                sname = tg.id
+    if sname is None:
+        raise AnalysisError("_serialize_element: the keyword dict built from inspect.signature(Element.__init__) was not found")
+    ser = view(ser0, ctx.prog, keep=(sname,))
     base_kw = set(kwonly(ctx.func("Element.__init__")))
-    P = Parents(ser)
+    P = Parents(ser.body)
     n = 0
     for node in walk_own(ser.body):
         if isinstance(node, ast.Assign):
             for t in node.targets:
-                if isinstance(t, ast.Subscript) and norm(t.value) == "schema" and isinstance(t.slice, ast.Constant) \
+                if isinstance(t, ast.Subscript) and norm(t.value) == sname and isinstance(t.slice, ast.Constant) \
                         and t.slice.value in base_kw:
                     n += 1
                     k = t.slice.value
-                    reads_old = has(f"schema[{k!r}]", node.value) or has(f"schema.get({k!r}, MV__)", node.value) \
-                        or has(f"schema.get({k!r})", node.value) or has(f"schema.pop({k!r}, MV__)", node.value)
+                    reads_old = has(f"{sname}[{k!r}]", node.value) or has(f"{sname}.get({k!r}, MV__)", node.value) \
+                        or has(f"{sname}.get({k!r})", node.value) or has(f"{sname}.pop({k!r}, MV__)", node.value)
                     res.check(reads_old, ser, f"schema[{k!r}] = ...", detail={"value": norm(node.value)[:120]},
                               reason=f"a later store to keyword `{k}` must be computed from the value already read from "
                                      "the element (otherwise the element's own value is lost)")
         elif isinstance(node, ast.Delete):
             for t in node.targets:
-                if isinstance(t, ast.Subscript) and norm(t.value) == "schema" and isinstance(t.slice, ast.Constant):
+                if isinstance(t, ast.Subscript) and norm(t.value) == sname and isinstance(t.slice, ast.Constant):
                     n += 1
                     k = t.slice.value
                     gs = flat_guards(P, node)
-                    ok = any(pol is False and norm(tt) in (f"schema.get({k!r}, True)", f"schema[{k!r}]", f"schema.get({k!r})")
+                    ok = any(pol is False and norm(tt) in (f"{sname}.get({k!r}, True)", f"{sname}[{k!r}]", f"{sname}.get({k!r})")
                              for tt, pol in gs)
                     droppable = k in ("properties", "required")
                     res.check(ok and droppable, ser, f"del schema[{k!r}]",
                               reason="a keyword is deleted only when its own value is empty, and only `properties` / `required`, "
                                      "whose empty value means nothing (an empty or false `items`, a false additional*, a falsy "
                                      "default are meaningful and must be emitted)")
-        elif isinstance(node, ast.Call) and isinstance(node.func, ast.Attribute) and norm(node.func.value) == "schema" \
+        elif isinstance(node, ast.Call) and isinstance(node.func, ast.Attribute) and norm(node.func.value) == sname \
                 and node.func.attr in ("pop", "clear", "popitem", "update"):
             n += 1
             res.violation(ser, node, reason="keyword values are removed or replaced wholesale on the way out")
@@ -136,9 +147,10 @@ def k2(ctx, res):
             for c in g.ifs:
                 conds += c.values if isinstance(c, ast.BoolOp) and isinstance(c.op, ast.And) else [c]
             pn = norm(g.target)
-            want = {f"{pn}.kind == {pn}.KEYWORD_ONLY", f"getattr(element, {pn}.name, {pn}.default) != {pn}.default"}
+            el = ser0.params[0].name
+            want = {f"{pn}.kind == {pn}.KEYWORD_ONLY", f"getattr({el}, {pn}.name, {pn}.default) != {pn}.default"}
             ok = {norm(c) for c in conds} == want and norm(n2.key) == f"{pn}.name" and \
-                norm(n2.value) == f"getattr(element, {pn}.name, {pn}.default)"
+                norm(n2.value) == f"getattr({el}, {pn}.name, {pn}.default)"
     res.check(ok, ser, "{p.name: getattr(element, p.name, p.default) for keyword-only p if value != p.default}",
               reason="every keyword whose value differs from the constructor default is read (equality, not truthiness)")
 
@@ -285,12 +297,14 @@ def k4(ctx, res):
             ok = has("self[MV_k].name or MV_k", node.key)
     res.check(ok, pc, "result key: self[key].name or key", reason="declared members are exposed under their Python names")
     # S4: the parser records the JSON name on every property it creates
-    for short in ("_parse_properties", "_parse_object"):
-        f = ctx.func(short)
+    n_prop_calls = 0
+    for f in [g for g in ctx.prog.all_funcs() if g.module.name == "statham.schema.parser"]:
         calls = [x for x in walk_own(f.body) if isinstance(x, ast.Call) and dotted(x.func) == "_Property"]
         for c in calls:
+            n_prop_calls += 1
             src = [k for k in c.keywords if k.arg == "source"]
             res.check(bool(src), f, c, reason="a parsed property records its JSON name as `source`")
+    res.floor("parser_property_constructions", n_prop_calls, 2)
     # S5: dict keys the parser gives property mappings are mapped (Python) names
     pp = ctx.func("_parse_properties")
     for node in walk_own(pp.body):
@@ -309,7 +323,7 @@ SANITISER_FUNCS = {"_docstring"}
 
 def _safe_interp(e, f, ctx, depth=0):
     """Is the interpolated expression free of raw schema text?"""
-    if depth > 6:
+    if depth > 16:
         return False, "too deep"
     if isinstance(e, ast.Constant):
         return True, "constant"
@@ -350,6 +364,10 @@ def _safe_interp(e, f, ctx, depth=0):
             return _safe_interp(e.func.value, f, ctx, depth + 1)
         if d in ("custom_repr_args", "custom_repr", "sorted", "list"):
             return True, "checked emitter"
+        if isinstance(e.func, ast.Name):
+            r = ctx.prog.resolve_in(f, e.func.id)
+            if r and r[0] == "func" and r[1].qualname in getattr(ctx, "_k5_emitters", ()):
+                return True, "helper checked as an emitter itself"
         if d == "type":
             return True, "a class"
         return False, f"call {norm(e)[:40]}"
@@ -461,6 +479,20 @@ def k5(ctx, res):
         if not got:
             raise AnalysisError(f"emitter {short} vanished")
         funcs.append(got[0])
+    # private helpers the emitters delegate to are emitters as well
+    seen = {g.qualname for g in funcs}
+    work = list(funcs)
+    while work:
+        g = work.pop()
+        for site in ctx.inf.sites(g)[0]:
+            c = getattr(site, "callee", None)
+            if site.kind == "call" and c is not None and c.cls is None and c.short.startswith("_") \
+                    and c.module.name.startswith("statham.") and c.qualname not in seen and c.short not in SANITISER_FUNCS \
+                    and any(isinstance(x, (ast.JoinedStr,)) for x in walk_own(c.body)):
+                seen.add(c.qualname)
+                funcs.append(c)
+                work.append(c)
+    ctx._k5_emitters = seen
     n = k5_core(ctx, res, funcs)
     res.floor("interpolations_in_emitters", n, 12)
     # the escaping emitter, when present, really escapes backslashes and the quote character
@@ -492,23 +524,41 @@ def _normalised_locals(f):
 
 @rule("K6", "const / enum / uniqueItems compare with bool-aware, deep JSON equality")
 def k6(ctx, res):
-    n = 0
-    for cname in ("Const", "Enum", "UniqueItems"):
-        f = ctx.cls(cname).methods.get("_validate")
-        if f is None:
-            raise AnalysisError(f"{cname}._validate vanished")
-        normed = _normalised_locals(f)
+    from .norm import _private_callee
+    count = [0]
+
+    def is_normed(x, normed):
+        return (isinstance(x, ast.Name) and x.id in normed) or (isinstance(x, ast.Call) and dotted(x.func) == "replace_bool")
+
+    def returns_only_len(h):
+        rets = [r for r in walk_own(h.body) if isinstance(r, ast.Return)]
+        return bool(rets) and all(r.value is not None and isinstance(r.value, ast.Call) and dotted(r.value.func) == "len" for r in rets)
+
+    def scan(f, normed, depth=0):
+        normed = set(normed) | _normalised_locals(f)
         len_locals = set()
         for st in walk_own(f.body):
             if isinstance(st, ast.Assign) and len(st.targets) == 1 and isinstance(st.targets[0], ast.Name) \
                     and isinstance(st.value, ast.Call) and dotted(st.value.func) == "len":
                 len_locals.add(st.targets[0].id)
+        helpers = {}
+        for node in walk_own(f.body):
+            if isinstance(node, ast.Call) and depth < 2:
+                h, mapping = _private_callee(node, f, ctx.prog)
+                if h is not None and h is not f:
+                    helpers[id(node)] = h
+                    hn = {p for p, a in mapping.items() if is_normed(a, normed)}
+                    scan(h, hn, depth + 1)
         for node in walk_own(f.body):
             operands = []
             if isinstance(node, ast.Compare) and any(isinstance(o, (ast.Eq, ast.NotEq, ast.In, ast.NotIn)) for o in node.ops):
                 operands = [node.left] + list(node.comparators)
-                if all(isinstance(x, ast.Call) and dotted(x.func) == "len" or isinstance(x, (ast.Constant,)) or
-                       (isinstance(x, ast.Name) and x.id == "length") for x in operands):
+
+                def lenlike(x):
+                    return (isinstance(x, ast.Call) and dotted(x.func) == "len") or isinstance(x, ast.Constant) or \
+                        (isinstance(x, ast.Name) and (x.id == "length" or x.id in len_locals)) or \
+                        (isinstance(x, ast.Call) and id(x) in helpers and returns_only_len(helpers[id(x)]))
+                if all(lenlike(x) for x in operands):
                     continue
             elif isinstance(node, ast.Call) and dotted(node.func) in ("set", "remove_duplicates", "frozenset", "sorted", "Counter") \
                     and node.args:
@@ -518,12 +568,17 @@ def k6(ctx, res):
                     continue
                 if isinstance(x, ast.Name) and x.id in len_locals:
                     continue
-                n += 1
-                ok = (isinstance(x, ast.Name) and x.id in normed) or \
-                    (isinstance(x, ast.Call) and dotted(x.func) == "replace_bool")
-                res.check(ok, f, f"operand {norm(x)[:60]} of {type(node).__name__}",
+                count[0] += 1
+                res.check(is_normed(x, normed), f, f"operand {norm(x)[:60]} of {type(node).__name__}",
                           reason="both sides of a JSON equality / membership / de-duplication are normalised by replace_bool "
                                  "(Python's == conflates true with 1 and false with 0)")
+
+    for cname in ("Const", "Enum", "UniqueItems"):
+        f = ctx.cls(cname).methods.get("_validate")
+        if f is None:
+            raise AnalysisError(f"{cname}._validate vanished")
+        scan(f, set())
+    n = count[0]
     res.floor("equality_operands", n, 6)
     rb = ctx.func("replace_bool")
     v = rb.params[0].name
